@@ -41,7 +41,7 @@ Definition ftype_eqb (a b : ftype) : bool :=
 Record menv := {
   max_field_chars : N;                       (* eng.Options().MaxFieldChars *)
   (* gocommon/urns *)
-  urn_normalize : N -> N;
+  urn_norm1 : N -> N;                          (* one call of urns.URN.Normalize *)
   urn_valid : N -> bool;
   urn_identity : N -> N;
   urn_scheme : N -> N;
@@ -63,6 +63,16 @@ Record menv := {
   uses_query : N -> bool;
   matches : N -> contact -> bool             (* applied to [qview c] only *)
 }.
+
+(* flows.NormalizeURN (fix F3n): Normalize until it no longer changes the URN, at most 20 rounds.  gocommon's Normalize is
+   not idempotent (tel:+4400858870981 -> +440858870981 -> +44858870981); the URNs modifier and Contact.HasURN use this *)
+Fixpoint norm_iter (E : menv) (fuel : nat) (u : N) : N :=
+  match fuel with
+  | O => u
+  | S f => let v := urn_norm1 E u in if N.eqb v u then u else norm_iter E f v
+  end.
+
+Definition urn_normalize (E : menv) (u : N) : N := norm_iter E 20 u.
 
 (* ---- events, as far as a caller mirrors them ---------------------------------------------------------- *)
 Inductive event :=
@@ -338,14 +348,13 @@ Definition apply (E : menv) (fresh : N) (m : modifier) (c : contact) : contact *
 
 (* ---- what the idempotence theorem (proofs/ModifiersProofs.v) needs to know about gocommon/urns, as a
    computable test so that the correspondence run evaluates it on every case: for an appending URNs modifier,
-   Normalize is stable up to Identity on the URNs it makes valid; for a channel modifier, SetChannel with that
+   the 20 rounds of NormalizeURN reach a fixed point of Normalize on the URNs it makes valid; for a channel modifier, SetChannel with that
    channel is idempotent and keeps the scheme on the URNs the contact holds ---------------------------------- *)
 Definition mod_env_ok (E : menv) (m : modifier) (c : contact) : bool :=
   match m with
   | MURNs us UAppend =>
       forallb (fun u => negb (urn_valid E (urn_normalize E u))
-                        || N.eqb (urn_identity E (urn_normalize E (urn_normalize E u)))
-                                 (urn_identity E (urn_normalize E u))) us
+                        || N.eqb (urn_norm1 E (urn_normalize E u)) (urn_normalize E u)) us
   | MChannel ch =>
       forallb (fun u => N.eqb (urn_set_channel E ch (urn_set_channel E ch u)) (urn_set_channel E ch u)
                         && N.eqb (urn_scheme E (urn_set_channel E ch u)) (urn_scheme E u))
